@@ -210,6 +210,14 @@ def twin(rng, v):
     return v
 
 
+def twin_dec(rng, v):
+    """Like twin() but type-preserving: only the exponent of a Decimal changes (2.0 -> 2.00)."""
+    import decimal
+    if isinstance(v, decimal.Decimal) and not isinstance(v, bool) and v.is_finite():
+        return v.quantize(decimal.Decimal(1).scaleb(v.as_tuple().exponent - rng.choice([1, 2, 3])))
+    return v
+
+
 def base_type(t):
     return {'pint': 'int', 'acct': 'str', 'year': 'int', 'month': 'int', 'pday': 'int', 'nbool': 'bool', 'metakey': 'str', 'lpat': 'str'}.get(t, t)
 
@@ -351,8 +359,16 @@ def generate(rng, tier, run):
                 ops.append({'op': 'executemany', 'stmt': i, 'mode': mode, 'sets': [[world.enc(v) for v in s_] for s_ in sets]})
             elif kind == 'fold':
                 tpl, types_ = rng.choice(FOLD_EXPRS)
+                fvals = [gen_slot(rng, t) for t in types_]
                 ops.append({'op': 'fold', 'expr': tpl, 'types': [base_type(t) for t in types_],
-                            'vals': [world.enc(gen_slot(rng, t)) for t in types_], 'real_parse': rng.random() < 0.05})
+                            'vals': [world.enc(v) for v in fvals], 'real_parse': rng.random() < 0.05})
+                if rng.random() < 0.35:
+                    # the same constant expression again with operands that are == in Python but other BQL
+                    # constants (decimal exponent): a value remembered per connection under an ==-key shows here
+                    tvals = [twin_dec(rng, v) for v in fvals]
+                    if [world.enc(v) for v in tvals] != ops[-1]['vals']:
+                        ops.append({'op': 'fold', 'expr': tpl, 'types': ops[-1]['types'],
+                                    'vals': [world.enc(v) for v in tvals], 'real_parse': False})
             elif kind == 'tables':
                 ops.append(rng.choice([{'op': 'register', 'variant': 0}, {'op': 'register', 'variant': 1}, {'op': 'unregister'},
                                        {'op': 'attach', 'ledger': rng.choice([0, 1])}]))
